@@ -559,6 +559,15 @@ func tparmMain(args []string) error {
 	}
 	r.reset()
 
+	// strings through variables: whatever a string parameter looks like (digits, a sign, empty), a variable gives it
+	// back as the string it was - dynamic and static variables, then %s, a width, %l, and use as a number
+	for _, sp := range []string{"007", "+5", "-0", "00", "12", "", "0x10", " 7", "caf\u00e9", "9999999999"} {
+		for _, p := range []string{"%p1%Pa%ga%s", "%p1%PA%gA%s|%gA%l%d", "%p1%Pb%gb%:-6s|", "%p1%PZ%p2%Pa%gZ%s%ga%d", "%p1%Pa%ga%l%d:%ga%s", "%p1%l%Pc%gc%d"} {
+			r.call("gen", p, true, []tpVal{{isStr: true, s: sp}, {n: 7}})
+		}
+	}
+	r.reset()
+
 	// robustness: arbitrary bytes, biased to the operator alphabet
 	alpha := []byte("%%%%?te;pPg{}'dcsxoil+-*/m&|^~!=<>AO:#. 0123456789aZ\x00\x1b\xff")
 	for i := 0; i < *nrob; i++ {
